@@ -39,6 +39,8 @@ func runC03(r *Run, p *Prog) {
 	siblingRules(r, p, "C01", []string{"R2"}, "P10")
 	// P11: a cancelled receive must not leave a helper behind that consumes the next reply; on the bridge transport this needs the deadline on the right pipe end
 	siblingRules(r, p, "C17", []string{"D1", "D2", "D3", "D6"}, "P11")
+	// P12: what the handler reads is what the client passed only if nothing rewrites the encoded frame between the encoder and the write
+	siblingRules(r, p, "C02", []string{"F1"}, "P12")
 	ro := DiscoverRoles(p)
 	T := ro.T
 	cm := buildClientModel(p, ro)
